@@ -187,6 +187,110 @@ async fn req_case(ctx: &mut Ctx, request: &[usize], reply: &[usize], case: &Valu
     }
 }
 
+/// Several requests through ONE REP socket: the reply envelope must be the one of the
+/// request being answered, whatever happened to earlier requests (answered, abandoned by
+/// a further recv, requester gone).
+async fn rep_two_requests(ctx: &mut Ctx, p1: &[usize], p2: &[usize], first: &str, case: &Value) {
+    let mut sock = Sock::new("REP", None);
+    let x = match Peer::attach(&sock, "DEALER", Some(b"X")).await {
+        Ok(p) => p,
+        Err(e) => {
+            ctx.inconclusive(format!("C07 attach: {e}"));
+            return;
+        }
+    };
+    let y = match Peer::attach(&sock, if p2.is_empty() { "REQ" } else { "DEALER" }, Some(b"Y")).await {
+        Ok(p) => p,
+        Err(e) => {
+            ctx.inconclusive(format!("C07 attach: {e}"));
+            return;
+        }
+    };
+    let (pre1, pre2) = (mk(0xF0, p1), mk(0xF1, p2));
+    let (req1, req2) = (mk(0xF2, &[5, 0]), mk(0xF3, &[3]));
+    let (rep1, rep2) = (mk(0xF4, &[2]), mk(0xF5, &[0, 4]));
+    let wire = |pre: &Frames, req: &Frames| {
+        let mut w = pre.clone();
+        w.push(vec![]);
+        w.extend(req.clone());
+        w
+    };
+    x.send(&wire(&pre1, &req1));
+    match recv_now(&mut sock).await {
+        Some(Ok(m)) if m == req1 => {}
+        other => {
+            ctx.violation_with("C07/rep-recv-not-the-frames-after-the-delimiter", format!("first request: {other:?}"), case.clone());
+            return;
+        }
+    }
+    match first {
+        "answered" => {
+            if !matches!(sim::complete(sock.send(&rep1)).await, Ok(Ok(()))) {
+                ctx.violation_with("C07/rep-send-failed", "first reply failed".into(), case.clone());
+                return;
+            }
+            let mut want = pre1.clone();
+            want.push(vec![]);
+            want.extend(rep1.clone());
+            if x.out_msgs().ok() != Some(vec![want]) {
+                ctx.violation_with("C07/rep-reply-envelope", "first reply envelope wrong".into(), case.clone());
+                return;
+            }
+        }
+        "requester-gone" => {
+            // the requester vanishes; the socket notices while the application polls recv
+            x.conn.close_full(crate::pipe::EndKind::Eof);
+            let _ = recv_now(&mut sock).await;
+            let _ = sim::complete(sock.send(&rep1)).await; // may fail: the client is gone
+            ctx.count("rep_requester_gone_before_reply");
+        }
+        _ => {
+            // abandoned: the application just asks for the next request
+            ctx.count("rep_request_abandoned");
+        }
+    }
+    y.send(&wire(&pre2, &req2));
+    match recv_now(&mut sock).await {
+        Some(Ok(m)) if m == req2 => {}
+        other => {
+            ctx.violation_with(
+                "C07/rep-recv-not-the-frames-after-the-delimiter",
+                format!("second request (after the first was {first}): {other:?}"),
+                case.clone(),
+            );
+            return;
+        }
+    }
+    match sim::complete(sock.send(&rep2)).await {
+        Ok(Ok(())) => {}
+        other => {
+            ctx.violation_with("C07/rep-send-failed", format!("reply to the second request (first was {first}): {other:?}"), case.clone());
+            return;
+        }
+    }
+    let mut want = pre2.clone();
+    want.push(vec![]);
+    want.extend(rep2.clone());
+    match y.out_msgs() {
+        Ok(msgs) if msgs == vec![want.clone()] => {}
+        other => {
+            ctx.violation_with(
+                "C07/rep-reply-envelope-of-another-request",
+                format!(
+                    "first request (prefix {p1:?}) was {first}; reply to the second request (prefix {p2:?}) went out as {:?}, expected {}",
+                    other.map(|ms| ms.iter().map(|m| rc::frames_summary(m)).collect::<Vec<_>>()),
+                    rc::frames_summary(&want)
+                ),
+                case.clone(),
+            );
+            return;
+        }
+    }
+    if first != "answered" && x.out_msgs().map(|m| m.iter().any(|f| f.ends_with(&rep2))).unwrap_or(false) {
+        ctx.violation_with("C07/rep-reply-envelope-of-another-request", "the second reply was written to the first requester".into(), case.clone());
+    }
+}
+
 /// Degenerate requests/replies: never Ok(message with zero frames); where the
 /// statement defines the result (nothing after the delimiter) it must be an
 /// error or a drop.
@@ -246,6 +350,14 @@ impl Prop for C07 {
             v.push(json!({"kind": "req_batch", "shapes": chunk}));
         }
         v.push(json!({"kind": "degenerate"}));
+        let pres: [&[usize]; 4] = [&[], &[5], &[1, 255], &[3, 3, 3]];
+        for p1 in pres {
+            for p2 in pres {
+                for first in ["answered", "abandoned", "requester-gone"] {
+                    v.push(json!({"kind": "rep_two", "p1": p1, "p2": p2, "first": first}));
+                }
+            }
+        }
         v
     }
 
@@ -294,6 +406,12 @@ impl Prop for C07 {
                 ctx.eval(1, true);
                 sim::run(req_case(ctx, &usizes(case, "request"), &usizes(case, "reply"), case));
             }
+            "rep_two" => {
+                ctx.eval(hash_str(&case.to_string()), true);
+                ctx.count("rep_two_request_sequences");
+                ctx.sample("rep_two", || case.clone());
+                sim::run(rep_two_requests(ctx, &usizes(case, "p1"), &usizes(case, "p2"), s(case, "first"), case));
+            }
             "degenerate" => {
                 let x = b"x".to_vec();
                 let id = b"id".to_vec();
@@ -336,6 +454,9 @@ impl Prop for C07 {
             ("req_cases", 340),
             ("payload_with_interior_empty_frame", 100),
             ("multi_hop_prefix", 100),
+            ("rep_two_request_sequences", 48),
+            ("rep_request_abandoned", 16),
+            ("rep_requester_gone_before_reply", 16),
             ("degenerate/delimiter-last", 1),
             ("degenerate/single-empty-frame", 2),
             ("degenerate/single-frame", 2),
